@@ -106,6 +106,13 @@ func main() {
 		rep = runC16(*seed, *n, *out)
 	case "c18":
 		rep = runC18(*seed, *n, *out)
+	case "crash":
+		rep = runCrashStream(*seed, *n, *out, *tier)
+	case "crashchild":
+		crashChildMain(*out, *backend)
+		return
+	case "fault":
+		rep = runFaultStream(*seed, *n, *out, *backend, *tier)
 	case "hist":
 		rep = runHistStream(*seed, *n, *out, *backend, *focus, *tier)
 		stream = "hist" + *suffix
